@@ -10,7 +10,10 @@ RULE = ("merge on pairs of conditional tables x strictly positive base rates, |X
         "outputs compared after transposition (cross-case check); families A/M (validated product) and D/N; f32+f64. Structured "
         "stream (|Y|=3): for some y one parent is irrelevant (equal u and equal b(y) in every row: constant likelihood column, its "
         "inverted opinion for y is vacuous) while every conditional of the other parent is dogmatic with an impossible outcome and "
-        "y is possible and non-constant under it; both assignments of the roles to X1 / X2 (the exchanged pair), all families")
+        "y is possible and non-constant under it; both assignments of the roles to X1 / X2 (the exchanged pair), all families. "
+        "Variant token `acc` (half of the pairs, added with repair 9ec2d8b): the harness appends whether Simplex::try_new accepts EVERY "
+        "cell of the merged table; required (clause C11.cell_accepted_by_constructor) when tables and base rates are EXACTLY well-formed "
+        "as rationals with strictly positive base rates (joint domains of at most 8 cells: 3x3 parents are not judged by this clause)")
 EXHAUSTIVE = {}
 nontrivial = default_nontrivial
 CROSS_GROUPS = [0]
@@ -80,8 +83,10 @@ def one(rng, fmt, n1, n2, m, den, fam, st, impossible=False, tables=None):
     if rng.random() < 0.15:     # rare values: small but strictly positive base rates (joint rates near the zero tolerance)
         ax1 = G.inject_tiny(rng, fmt, ax1, rng.choice(G.TINY[fmt][2:])) or ax1
         ax2 = G.inject_tiny(rng, fmt, ax2, rng.choice(G.TINY[fmt][2:])) or ax2
-    a = G.line("merge", fmt, fam + "." + st, [n1, n2, m], c1 + c2 + ax1 + ax2 + ay)
-    b = G.line("merge", fmt, fam + "." + st, [n2, n1, m], c2 + c1 + ax2 + ax1 + ay)
+    # variant token `acc` (half of the pairs): the harness appends whether Simplex::try_new accepts EVERY cell of the merged table
+    var = fam + "." + st + (".acc" if rng.random() < 0.5 else "")
+    a = G.line("merge", fmt, var, [n1, n2, m], c1 + c2 + ax1 + ax2 + ay)
+    b = G.line("merge", fmt, var, [n2, n1, m], c2 + c1 + ax2 + ax1 + ay)
     gid = CROSS_GROUPS[0]
     CROSS_GROUPS[0] += 1
     return [(a, ("pair", gid, 0, n1, n2, m)), (b, ("pair", gid, 1, n1, n2, m))]
